@@ -35,7 +35,12 @@ BIG_QUIRKS = ['byid_cap']      # exercised by `x07 big` only (a trace of more th
 # is Mech(AllQuirks minus these); a repaired quirk stays in the specification as a mutation: TLC still says where it would
 # fire, the real code must answer the definition there, and an answer that equals the prediction WITH the quirk is reported
 # under the quirk's signature again.
-REPAIRED = []
+# Repaired in /repo: min_exclusive a8ca739, dur_trunc_ms 28dc994, v2_max_exclusive c1df2e9, short_id 16f537a, unknown_200 e56f58e,
+# values_scope_strip 76d5c8d.  v2_inner_limit is still in the code (the LIMIT of the tempo_v2 index statement) and therefore NOT listed
+# here, but since the three duration repairs the index and the outer statement test the same conditions and the inner LIMIT cuts what
+# the outer LIMIT would cut: no case is left in which it fires on its own (it comes back when search is regrouped into traces).
+# Open (known_findings.json, property X07): span_rows, tags_same_span, dur_span (one root cause: search over span rows), byid_cap.
+REPAIRED = ['min_exclusive', 'dur_trunc_ms', 'v2_max_exclusive', 'values_scope_strip', 'unknown_200', 'short_id']
 
 CFG = '''SPECIFICATION Spec
 CONSTANTS
